@@ -59,6 +59,7 @@ def run(ctx, rep):
     rep.rule("R16.7", "lower/upper twin symmetry of the bound bookkeeping of the solvers (a one-sided slip lets the iterate overshoot a bound and the model increase) (see C15 R15.6)")
     from ..report import Renamed
     c15.r156(ctx, Renamed(rep, to="R16.7"))
+    c15.r1516(ctx, Renamed(rep, to="R16.7"))
     rep.rule("R16.6", "the working-set masks and subproblem data reach the solvers and their QR helpers through the right parameters (no swapped arguments)")
     from . import common
     if common.check_swapped_args(ctx, rep, "R16.6", lambda g: g.module.name.startswith("cobyqa.subsolvers")) < 8:
